@@ -231,6 +231,16 @@ def run_ring(case, ctx):
                 ctx.label("wrap-around")
                 ctx.nontrivial = True
         exp = hist[-cap:]
+        if case.get("observe") == "sparse" and o is not case["ops"][-1]:
+            # a third of the drawn histories: one point read per step (no iteration, no sweep over all indices), so that state kept
+            # from one read to the next - a cached position of the oldest element, round 17 - is not refreshed by the observation
+            ctx.label("ring-observed-by-one-point-read-per-step")
+            if exp:
+                i = (len(hist) + (o or 0)) % len(exp)
+                r = g(ctx, "CircularBuffer/getitem", lambda: cb[i])
+                ctx.need(r == exp[i], "CircularBuffer/getitem/wrong", lambda: "[%d]=%r expected %r (capacity %d after %r)" % (i, r, exp[i], cap, case["ops"]))
+            ctx.need(len(cb) == len(exp), "CircularBuffer/len/wrong", lambda: "len %d expected %d" % (len(cb), len(exp)))
+            continue
         got = g(ctx, "CircularBuffer/iter", lambda: take(cb, len(exp) + 2))
         ctx.need(got == exp, "CircularBuffer/content/wrong", lambda: "capacity %d after %r: %r expected %r" % (cap, case["ops"], got, exp))
         ctx.need(len(cb) == len(exp), "CircularBuffer/len/wrong", lambda: "len %d expected %d" % (len(cb), len(exp)))
@@ -302,7 +312,7 @@ def strategies(tier):
                                      "end": st.sampled_from(["\n", "", "|", "\r\n"])})
     script = st.fixed_dictionaries({"kind": st.just("script"), "end": st.sampled_from(["\n", "", ";"]), "empty_every": st.sampled_from([0, 0, 2, 3]),
                                     "ops": st.one_of(codes(0, 6), codes(6, 30)).map(lambda cs: [dec_script(c) for c in cs])})
-    ring = st.fixed_dictionaries({"kind": st.just("ring"), "cap": st.integers(1, 6),
+    ring = st.fixed_dictionaries({"kind": st.just("ring"), "cap": st.integers(1, 6), "observe": st.sampled_from(["each", "each", "sparse"]),
                                   "ops": st.lists(st.one_of(st.integers(0, 99), st.integers(0, 99), st.integers(0, 99), st.none()), max_size=60)})
     n = 2000000 if big else 20000
     return [("reorder-drawn", reorder, n // 4), ("scripts", script, n // 2), ("ring-drawn", ring, n // 4)]
